@@ -188,9 +188,9 @@ check("C07", "model_checking",
       "TLC checks Accounting, FailClosed, BoundedWork, Monotone and Terminates, and that BoundedWork fails when rounds are not charged.  Adversarial program families "
       "(unbounded loops and recursion, huge counts, exploding pools in every mode, doubling strings/containers, sources around every built-in capacity, small parse budgets) "
       "run in child processes with time/memory ceilings under budgets 300 and 30000; hooks H1/H2 meter every dispatched instruction (with the counter at that moment) and "
-      "every die; TLC (Trace_Budget) checks for every run: termination, no resource exhaustion, no crash, work <= K*limit+C, work <= K*ops+C at every dispatch, "
+      "every die; TLC (Trace_Budget) checks for every run: termination, no resource exhaustion, no crash, work <= 1.5*limit+200, work <= 2*ops+200 at every dispatch, "
       "counter monotone, over-limit => error, and for capacity cases value = the full program's value or an error.",
-      "Trusted: the meters, the ceilings (12 s, 1.5 GB), the slack constants K=6, C=2000, the generator's expected values, TLC. Families are designed, not exhaustive.",
+      "Trusted: the meters, the ceilings (45 s, 1.5 GB), the slack constants, the generator's expected values, TLC. Families are designed, not exhaustive.",
       "TLA+ metered machine checked by TLC + TLC trace validation of metered real runs of adversarial programs", "DESIGN.md section 4 C07")
 
 check("C01", "model_checking",
